@@ -1,4 +1,5 @@
 import PcfgVerif.Model.Scorer
+import PcfgVerif.Generated.CliOptions
 import PcfgVerif.Properties.C03
 import PcfgVerif.Properties.ScoreCoreA
 import PcfgVerif.Properties.ScoreCoreB
@@ -103,5 +104,17 @@ theorem C13_trained_promise (U : UEnv) (upper : Char → List Char) (cfg : MWCfg
   C13_promise C03.ratCMon le gt limit U upper cfg t pw hne hl hsc hcase _ _
     (Trainer.trained_agree isAlpha hcap hdig cov pws.length _
       (Trainer.train_lenok U cfg (·.masks) (·.masks) (fun _ _ => rfl) rfl pws)) omenOk hnz
+
+/-- the option glue of `password_scorer.py` (regenerated from the source): ruleset name, input, output, cut-off, OMEN level
+cap and count-prefix flag reach the scorer as typed -/
+theorem C13_cli_passes_options :
+    Generated.CliOptions.scorerAssign =
+      [("parse_command_line", "rule_name", "args.rule"),
+       ("parse_command_line", "input_file", "args.input"),
+       ("parse_command_line", "output_file", "args.output"),
+       ("parse_command_line", "limit", "args.limit"),
+       ("parse_command_line", "max_omen_level", "args.max_omen"),
+       ("parse_command_line", "prefixcount", "args.prefixcount")] := by
+  decide
 
 end Pcfg.C13
